@@ -120,6 +120,10 @@ def programs(draw, tier):
                     xid[0] += 1
                     cs.append({'op': 'raise', 'x': xid[0]})
                 out.append({'op': 'spawn', 'child': {'name': 'c%d' % child_n[0], 'steps': cs}})
+                if draw(st.integers(0, 4)) == 0:
+                    # a sub-process whose generator ends before its first yield
+                    out[-1]['child'] = {'name': 'c%d' % child_n[0], 'noyield': True,
+                                        'steps': [{'op': 'return', 'v': draw(st.sampled_from([0, 'r', 9, None]))}]}
             elif r < 18:
                 k = draw(st.sampled_from(['delay', 'flag', 'coro']))
                 s = {'op': 'native', 'kind': k}
